@@ -62,7 +62,7 @@ def make_world(rng, layered=True, n_flat=None):
 
 
 class TermGen:
-    ALL = frozenset(["complex", "divmod", "keys", "topkeys"])
+    ALL = frozenset(["complex", "divmod", "keys", "topkeys", "builtins", "eqne"])
 
     def __init__(self, rng, profile="full"):
         self.rng = rng
@@ -70,6 +70,8 @@ class TermGen:
             profile = self.ALL
         elif profile == "safe":          # everything except the KF5 trigger
             profile = self.ALL - {"topkeys"}
+        elif profile == "plain":         # arithmetic, comparisons, calls, nested computed keys
+            profile = frozenset(["keys"])
         self.profile = frozenset(profile)
 
     def lit(self, kind):
@@ -135,6 +137,8 @@ class TermGen:
         if x < 0.55:
             op = r.choice(["add", "sub", "mul", "truediv", "add", "sub", "mul", "floordiv", "mod", "pow",
                            "lt", "le", "ge", "gt", "eq", "ne"])
+            if op in ("eq", "ne") and "eqne" not in self.profile:
+                op = "le"    # _eq/_neq print as ==/!= which rebuilds a bool (see C11, KF6)
             a = self.term(readable, depth - 1)
             if op == "pow":
                 b = ["lit", enc(r.choice([2, 3, 0.5, -1, 0, 1.5]))]
@@ -143,7 +147,7 @@ class TermGen:
             else:
                 b = self.term(readable, depth - 1)
             return ["bin", op, a, b]
-        if x < 0.63:
+        if x < 0.63 or (x < 0.80 and "builtins" not in self.profile):
             return ["un", r.choice(["neg", "pos", "neg"]), self.term(readable, depth - 1)]
         if x < 0.70:
             return ["bi", "abs", self.dterm(readable, depth - 1)]
@@ -288,7 +292,9 @@ class HistoryGen:
                 op = r.choice(["add", "sub", "mul", "and", "or", "xor", "lshift", "rshift", "floordiv", "mod"])
             else:
                 op = r.choice(["add", "sub", "mul", "truediv", "add", "sub", "floordiv", "mod", "pow"])
-            if r.random() < 0.6 or t["group"] == "leaf":
+            # once values are stale (load registers without evaluating) the current value must not
+            # be captured into a definition: no deferred operand on an undefined location
+            if r.random() < 0.6 or t["group"] == "leaf" or (s.stale and s.ckey(t["path"]) not in s.defs):
                 v = r.choice([0, 1, 2, 3]) if op in ("lshift", "rshift", "pow") else leaf_value(r, "int" if isint else "float")
                 return ["iop", t["path"], op, ["v", enc(v)]]
             rd = self.readable_for(t)
@@ -350,6 +356,17 @@ class HistoryGen:
             else:
                 node = {"obj": [[k, v] for k, v in zip("pqs", vals)]}
             return ["replace", ["r", I(group)], node]
+        if kind in ("refresh", "cleanup", "verify"):
+            return [kind]
+        if kind == "load":
+            pairs = []
+            for _ in range(r.randrange(1, 4)):
+                cands = [l for l in nonleaf if s.ckey(l["path"]) not in tt]
+                t = r.choice(cands)
+                rd = self.readable_for(t)
+                if rd and all(p[0] != t["path"] for p in pairs):
+                    pairs.append([t["path"], self.tg.deferred_term(rd, r.randrange(1, self.depth + 1))])
+            return ["load", pairs, r.random() < 0.5] if pairs else None
         if kind == "unreg_task":
             names = sorted(s.ftasks) + sorted(s.knobs)
             if not names:
